@@ -62,6 +62,60 @@ func resReplay(s *Summary, raw json.RawMessage) {
 			resRun(s, &c, ctl, base, rep%3, rep >= 3 && rep < 6, rep >= 6)
 		}
 		resStrict(s, &c, ctl, base)
+		resLate(s, &c, ctl, base)
+	}
+}
+
+// resLate: the resource is mounted on a caching router that is already serving - catch-all dynamic routes have answered
+// (and cached) requests for the resource's fixed paths; from the moment it is mounted, the fixed paths are the resource's
+func resLate(s *Summary, c *resCase, ctl resCtl, base string) {
+	name := strings.ToLower(ctl.name)
+	r := newRouter(cachingOpts(16)...)
+	catch := func(cx *rux.Context) { cx.WriteString("catch-all") }
+	for _, p := range []string{"/{a}", "/{a}/{b}", "/{a}/{b}/{c}", "/{a}/{b}/{c}/{d}"} {
+		r.Add(p, catch, "GET", "POST")
+	}
+	root := "/" + strings.Trim(base+name, "/")
+	pathOf := map[string]string{"root": root, "create": root + "/create"}
+	serve := func(m, p string) (int, string) {
+		w := httptest.NewRecorder()
+		r.ServeHTTP(w, &http.Request{Method: m, URL: &url.URL{Path: p}, Header: http.Header{}, Proto: "HTTP/1.1"})
+		return w.Code, w.Body.String()
+	}
+	for _, p := range pathOf {
+		for _, m := range []string{"GET", "HEAD", "POST", "GET"} {
+			serve(m, p)
+		}
+	}
+	var pan any
+	func() {
+		defer func() { pan = recover() }()
+		r.Resource(base, ctl.mk())
+	}()
+	if pan != nil {
+		return // (judged by resRun)
+	}
+	for _, pr := range c.Probes {
+		m, kind, action := pr[0], pr[1], pr[2]
+		// (only the probes a FIXED route of the resource answers: a cached dynamic match is not re-validated when routes are
+		// added later, which no property asks for)
+		if !((kind == "root" && (action == "Index" || action == "Store")) || (kind == "create" && action == "Create")) {
+			continue
+		}
+		wantBody := action
+		if ctl.uses {
+			wantBody = "mw:" + action + ";" + action
+		}
+		for pass := 1; pass <= 2; pass++ {
+			code, body := serve(m, pathOf[kind])
+			s.Compared++
+			if code != 200 || body != wantBody {
+				s.mismatch(map[string]any{"kind": "resource", "aspect": "probe", "controller": ctl.name, "base": base, "what": fmt.Sprintf(
+					"Resource(%q, %s implementing %v) mounted on a caching router whose catch-all routes had already answered %s: %s %s (pass %d) answered %d %q, expected action %s (%q)",
+					base, ctl.name, c.Impl, pathOf[kind], m, pathOf[kind], pass, code, body, action, wantBody)}, c)
+				return
+			}
+		}
 	}
 }
 
